@@ -11,6 +11,7 @@
 #include <bits/stdc++.h>
 
 extern "C" void vsched_atomic_point(const char* tag);
+extern "C" void vsched_atomic_after_store();
 
 namespace vsched { template <class T> using raw_atomic = std::atomic<T>; }
 
@@ -25,19 +26,19 @@ public:
     vs_atomic& operator=(const vs_atomic&) = delete;
     bool is_lock_free() const noexcept { return v_.is_lock_free(); }
     T load(memory_order m = memory_order_seq_cst) const noexcept { vsched_atomic_point("load:atomic"); return v_.load(m); }
-    void store(T x, memory_order m = memory_order_seq_cst) noexcept { vsched_atomic_point("store:atomic"); v_.store(x, m); }
+    void store(T x, memory_order m = memory_order_seq_cst) noexcept { vsched_atomic_point("store:atomic"); v_.store(x, m); vsched_atomic_after_store(); }
     operator T() const noexcept { return load(); }
     T operator=(T x) noexcept { store(x); return x; }
-    T exchange(T x, memory_order m = memory_order_seq_cst) noexcept { vsched_atomic_point("store:atomic"); return v_.exchange(x, m); }
-    bool compare_exchange_weak(T& e, T d, memory_order s, memory_order f) noexcept { vsched_atomic_point("store:atomic"); return v_.compare_exchange_strong(e, d, s, f); }
-    bool compare_exchange_weak(T& e, T d, memory_order m = memory_order_seq_cst) noexcept { vsched_atomic_point("store:atomic"); return v_.compare_exchange_strong(e, d, m); }
-    bool compare_exchange_strong(T& e, T d, memory_order s, memory_order f) noexcept { vsched_atomic_point("store:atomic"); return v_.compare_exchange_strong(e, d, s, f); }
-    bool compare_exchange_strong(T& e, T d, memory_order m = memory_order_seq_cst) noexcept { vsched_atomic_point("store:atomic"); return v_.compare_exchange_strong(e, d, m); }
-    template <class U = T> U fetch_add(U x, memory_order m = memory_order_seq_cst) noexcept { vsched_atomic_point("store:atomic"); return v_.fetch_add(x, m); }
-    template <class U = T> U fetch_sub(U x, memory_order m = memory_order_seq_cst) noexcept { vsched_atomic_point("store:atomic"); return v_.fetch_sub(x, m); }
-    template <class U = T> U fetch_and(U x, memory_order m = memory_order_seq_cst) noexcept { vsched_atomic_point("store:atomic"); return v_.fetch_and(x, m); }
-    template <class U = T> U fetch_or(U x, memory_order m = memory_order_seq_cst) noexcept { vsched_atomic_point("store:atomic"); return v_.fetch_or(x, m); }
-    template <class U = T> U fetch_xor(U x, memory_order m = memory_order_seq_cst) noexcept { vsched_atomic_point("store:atomic"); return v_.fetch_xor(x, m); }
+    T exchange(T x, memory_order m = memory_order_seq_cst) noexcept { vsched_atomic_point("store:atomic"); auto r_ = v_.exchange(x, m); vsched_atomic_after_store(); return r_; }
+    bool compare_exchange_weak(T& e, T d, memory_order s, memory_order f) noexcept { vsched_atomic_point("store:atomic"); auto r_ = v_.compare_exchange_strong(e, d, s, f); vsched_atomic_after_store(); return r_; }
+    bool compare_exchange_weak(T& e, T d, memory_order m = memory_order_seq_cst) noexcept { vsched_atomic_point("store:atomic"); auto r_ = v_.compare_exchange_strong(e, d, m); vsched_atomic_after_store(); return r_; }
+    bool compare_exchange_strong(T& e, T d, memory_order s, memory_order f) noexcept { vsched_atomic_point("store:atomic"); auto r_ = v_.compare_exchange_strong(e, d, s, f); vsched_atomic_after_store(); return r_; }
+    bool compare_exchange_strong(T& e, T d, memory_order m = memory_order_seq_cst) noexcept { vsched_atomic_point("store:atomic"); auto r_ = v_.compare_exchange_strong(e, d, m); vsched_atomic_after_store(); return r_; }
+    template <class U = T> U fetch_add(U x, memory_order m = memory_order_seq_cst) noexcept { vsched_atomic_point("store:atomic"); auto r_ = v_.fetch_add(x, m); vsched_atomic_after_store(); return r_; }
+    template <class U = T> U fetch_sub(U x, memory_order m = memory_order_seq_cst) noexcept { vsched_atomic_point("store:atomic"); auto r_ = v_.fetch_sub(x, m); vsched_atomic_after_store(); return r_; }
+    template <class U = T> U fetch_and(U x, memory_order m = memory_order_seq_cst) noexcept { vsched_atomic_point("store:atomic"); auto r_ = v_.fetch_and(x, m); vsched_atomic_after_store(); return r_; }
+    template <class U = T> U fetch_or(U x, memory_order m = memory_order_seq_cst) noexcept { vsched_atomic_point("store:atomic"); auto r_ = v_.fetch_or(x, m); vsched_atomic_after_store(); return r_; }
+    template <class U = T> U fetch_xor(U x, memory_order m = memory_order_seq_cst) noexcept { vsched_atomic_point("store:atomic"); auto r_ = v_.fetch_xor(x, m); vsched_atomic_after_store(); return r_; }
     template <class U = T> U operator++() noexcept { return fetch_add(U(1)) + U(1); }
     template <class U = T> U operator++(int) noexcept { return fetch_add(U(1)); }
     template <class U = T> U operator--() noexcept { return fetch_sub(U(1)) - U(1); }
